@@ -29,6 +29,13 @@ const SINGLE_TEXT: [&[u8; 2]; 4] = [b"LT", b"ST", b"UT", b"UR"];
 /// Text of the model as a Rust string: the generator's non-ASCII samples are either valid UTF-8 (data sets
 /// declaring ISO_IR 192) or ISO 8859-1 bytes that are not valid UTF-8 (data sets declaring ISO_IR 100)
 fn latin1_string(b: &[u8]) -> String {
+    if let Some(t) = ds::charset_sample_text(b) {
+        return t.to_string();
+    }
+    // (in the single-valued text VRs a backslash is text: the generator joins its samples with it)
+    if b.contains(&b'\\') && b.split(|c| *c == b'\\').any(|p| ds::charset_sample_text(p).is_some()) {
+        return b.split(|c| *c == b'\\').map(latin1_string).collect::<Vec<_>>().join("\\");
+    }
     if !b.is_ascii() {
         if let Ok(s) = std::str::from_utf8(b) {
             return s.to_string();
